@@ -33,6 +33,30 @@ class MyType(object):
         return hash(self.x)
 
 
+class TaggedStr(str):
+    """a subclass of str that carries an attribute: not a text result, must come back as itself"""
+    def __new__(cls, s, tag=None):
+        o = super().__new__(cls, s)
+        o.tag = tag
+        return o
+
+    def __reduce__(self):
+        return (TaggedStr, (str(self), self.tag))
+
+
+class Digest(bytes):
+    """a subclass of bytes"""
+    pass
+
+
+import enum as _enum
+
+
+class Color(str, _enum.Enum):
+    RED = "red"
+    BLUE = "blue"
+
+
 def user_codecs():
     from dds.structures import CodecProtocol, FileCodecProtocol, ProtocolRef, SupportedType
     from dds.structures_utils import SupportedTypeUtils as STU
@@ -102,6 +126,12 @@ def canon_value(v):
         pass
     if isinstance(v, MyType):
         return ("mytype", v.x)
+    if type(v) is TaggedStr:
+        return ("TaggedStr", str(v), v.tag)
+    if type(v) is Digest:
+        return ("Digest", bytes(v))
+    if type(v) is Color:
+        return ("Color", v.name)
     return v
 
 
@@ -110,7 +140,9 @@ def values(rng):
           ("str_crlf", "dos\r\nlines\r\n"), ("str_cr", "a\rb"), ("str_ws", " \t\n trailing \n"), ("str_nul", "a\x00b"),
           ("bytes_empty", b""), ("bytes", b"\x00\xff\x10abc"), ("bytes_big", bytes(range(256)) * 4000), ("none", None),
           ("int", 12345678901234567890), ("list", [1, "a", None]), ("dict", {"k": [1, 2]}), ("object", {"s": {1, 2}}),
-          ("mytype", MyType(("a", 1)))]
+          ("mytype", MyType(("a", 1))),
+          # instances of SUBCLASSES of the types that have a dedicated codec: they are objects, not text / bytes
+          ("str_subclass", TaggedStr("grüß", tag=7)), ("bytes_subclass", Digest(b"\x00\x01\xff")), ("str_enum", Color.BLUE)]
     try:
         import pandas
         vs.append(("pandas", pandas.DataFrame({"a": [1, 2, 3], "b": ["x", "y", "z"]})))
@@ -193,11 +225,11 @@ def run(ctx):
             written[key] = (name, v, meta["protocol"], raw)
             res.evaluations += 1
             res.nontrivial("value " + name)
-            if isinstance(v, str) and raw != v.encode("utf-8"):
+            if type(v) is str and raw != v.encode("utf-8"):
                 res.violations.append({"what": "text result %s is not stored verbatim (UTF-8)" % name, "input": {"value": name, "stored_prefix": repr(raw[:40])}, "kf": None})
-            if isinstance(v, (bytes, bytearray)) and raw != bytes(v):
+            if type(v) in (bytes, bytearray) and raw != bytes(v):
                 res.violations.append({"what": "bytes result %s is not stored verbatim" % name, "input": {"value": name, "stored_prefix": repr(raw[:40])}, "kf": None})
-            if isinstance(v, (str, bytes)):
+            if type(v) in (str, bytes):
                 via_data = open(os.path.join(data, "out", name), "rb").read()
                 if via_data != (v.encode("utf-8") if isinstance(v, str) else v):
                     res.violations.append({"what": "the file under the data directory for %s is not the verbatim result" % name, "input": {"value": name}, "kf": None})
